@@ -164,3 +164,6 @@ META = dict(
     assumptions=["0 < low <= open,close <= high <= 1e6, 0 <= volume <= 1e9 (flat, zero-volume, repeated candles inside)", "non-finite floats can only arise from division by zero (raises) or overflow (excluded by the bounds)"],
     explanation="every feasible path of the real calculation over symbolic candles; a raising path yields a model that is replayed on the real code",
 )
+
+# families added after the seeding rounds (kept next to the original bound so that MANIFEST / evidence stay current)
+META["bounds"] = dict(META["bounds"], quick=META["bounds"]["quick"] + "; added after the seeding rounds: " + 'every indicator with an input_value chained on SMA_5, MACD_2_3_2.signal and volume, batch and appended')
